@@ -36,7 +36,14 @@ pub enum WItem {
 
 #[derive(Clone, Debug, Serialize, Deserialize)]
 pub enum Case {
-    RoundTrip { items: Vec<RtItem>, cuts: Vec<u16> },
+    /// `failed_before`: the encoder first encoded item `i % len` into a writer that refuses
+    /// after `n` bytes (see c05::RefusingWriter); that call's outcome is ignored
+    RoundTrip {
+        items: Vec<RtItem>,
+        cuts: Vec<u16>,
+        #[serde(default)]
+        failed_before: Option<(u8, u8)>,
+    },
     Writer { initial: FaceSpec, items: Vec<WItem>, cuts: Vec<u16> },
 }
 
@@ -60,9 +67,18 @@ fn expected_for_face(f: &FaceSpec) -> FaceModify {
     }
 }
 
-fn check_roundtrip(items: &[RtItem], cuts: &[u16]) -> Outcome {
+fn check_roundtrip(items: &[RtItem], cuts: &[u16], failed_before: Option<(u8, u8)>) -> Outcome {
     let caps = TerminalCaps { depth: ColorDepth::TrueColor, glyphs: false, kitty_keyboard: false };
     let mut enc = TTYEncoder::new(caps);
+    if let Some((i, room)) = failed_before {
+        let cmd = match &items[i as usize % items.len()] {
+            RtItem::Face(f) => TerminalCommand::Face(f.to_face()),
+            RtItem::Modify(m) => TerminalCommand::FaceModify(m.to_lib()),
+            RtItem::Char(c) => TerminalCommand::Char(*c),
+        };
+        let mut w = c05::RefusingWriter { room: room as usize };
+        let _ = guard_val(|| enc.encode(&mut w, cmd))?;
+    }
     let mut bytes = Vec::new();
     let mut expected: Vec<TerminalCommand> = Vec::new();
     for item in items {
@@ -282,8 +298,8 @@ impl Property for C06 {
             3 => ch.clone().prop_map(RtItem::Char),
         ];
         let cuts = || proptest::collection::vec(any::<u16>(), 0..6);
-        let roundtrip = (proptest::collection::vec(rt_item, 1..8), cuts())
-            .prop_map(|(items, cuts)| Case::RoundTrip { items, cuts });
+        let roundtrip = (proptest::collection::vec(rt_item, 1..8), cuts(), proptest::option::weighted(0.2, (any::<u8>(), 0u8..48)))
+            .prop_map(|(items, cuts, failed_before)| Case::RoundTrip { items, cuts, failed_before });
         let witem = prop_oneof![
             3 => refsgr::params_strategy(false).prop_map(WItem::Sgr),
             2 => proptest::collection::vec(ch, 1..5).prop_map(|v| WItem::Text(v.into_iter().collect())),
@@ -295,7 +311,7 @@ impl Property for C06 {
 
     fn check(&self, case: &Case) -> Outcome {
         match case {
-            Case::RoundTrip { items, cuts } => check_roundtrip(items, cuts),
+            Case::RoundTrip { items, cuts, failed_before } => check_roundtrip(items, cuts, *failed_before),
             Case::Writer { initial, items, cuts } => check_writer(initial, items, cuts),
         }
     }
